@@ -37,8 +37,32 @@ def run(ctx):
         xors = [i for i in f.insts() if i.op == 'xor' and any(const_int(f, o) not in (None, -1) for o in i.ops)]
         polys = sorted({const_int(f, o) for i in xors for o in i.ops if const_int(f, o) not in (None, -1)})
         masks = sorted({const_int(f, o) for i in f.insts() if i.op == 'and' for o in i.ops if const_int(f, o) is not None})
+        def _step_is_field_step():
+            """the loop-carried element x of the table loop, followed through one iteration for a grid of values: the next value
+            must be (2x) reduced by 0x1100b when bit 16 sticks out - however the doubling and the overflow test are spelled"""
+            from .. import oblig
+            for h, body in natural_loops(f).items():
+                xs = [p_ for p_ in h.insts if p_.op == 'phi' and any(v_ == '1' for v_, l_ in p_.incoming if f.blocks[l_] not in body)]
+                cs = [p_ for p_ in h.insts if p_.op == 'phi' and any(v_ == '0' for v_, l_ in p_.incoming if f.blocks[l_] not in body)]
+                if len(xs) != 1:
+                    continue
+                start = h.insts[len([x_ for x_ in h.insts if x_.op == 'phi'])]
+                grid = [1 << b_ for b_ in range(16)] + [0xFFFF, 0x8001, 0xC000, 0x7FFF, 0x4001, 0xA5A5, 0x5A5A, 3]
+                for xv in grid:
+                    seed = {xs[0].res: xv}
+                    for c_ in cs:
+                        seed[c_.res] = 7
+                    outs = oblig.simulate(f, None, None, seed=seed, start=start, watch=(h, xs[0].res), max_steps=400)
+                    nxt = {val for kind, val, tr in outs if kind == 'watch'}
+                    want = (xv << 1) ^ (0x1100b if (xv << 1) & 0x10000 else 0)
+                    if nxt != {want}:
+                        return False, f'from element {xv:#x} the table loop goes to {sorted(map(str, nxt))}, the field step gives {want:#x}'
+                return True, None
+            return None, 'table loop with an element that starts at 1 not found'
         if polys == [0x1100b] and 0x10000 in masks:
             r.ok(f'[{lib}] reduction: if (x & 0x10000) x ^= 0x1100b', func=f.name, loc=xors[0].loc)
+        elif polys == [0x1100b] and _step_is_field_step()[0]:
+            r.ok(f'[{lib}] reduction: one table-loop iteration maps x to 2x reduced by 0x1100b (followed on a grid of elements)', func=f.name, loc=xors[0].loc)
         else:
             r.fail(f'[{lib}] reduction polynomial', func=f.name, sig=f'xor constants {[hex(p) for p in polys]} masks {[hex(x) for x in masks]}',
                    loc=(xors[0].loc if xors else m.src), msg=f'primitive polynomial / overflow bit is {[hex(p) for p in polys]} / {[hex(x) for x in masks]}, expected 0x1100b / 0x10000')
@@ -151,8 +175,9 @@ def run(ctx):
         pcm = PolyCtx(P, mf)
         K = Poly.atom(katom)
         nw = 0
-        for L in loops_of(P, mf, pcm):
-            inner = {b for L2 in loops_of(P, mf, pcm) if L2.header is not L.header and L2.body < L.body for b in L2.body}
+        LSm = loops_of(P, mf, pcm)
+        for L in LSm:
+            inner = {b for L2 in LSm if L2.header is not L.header and L2.body < L.body for b in L2.body}
             for ld in [i for b in L.body if b not in inner for i in b.insts if i.op == 'load' and i.ty == 'i32']:
                 pt = L.ptr_at_iteration(*pcm.ptr(ld.ops[0]))
                 if pt is None or not pt[0].startswith('@create_non_systematic_vand_matrix'):
@@ -168,7 +193,8 @@ def run(ctx):
                 if T is None or a4 is None:
                     r.undecided(inst, loc=ld.loc, msg=f'start {ab[0]}, trip {T}')
                     continue
-                col0 = strip_multiples(a4, katom)
+                from ..loops import in_iteration_space as _its4
+                col0 = strip_multiples(_its4(LSm, ld.bb, a4), katom)
                 # enclosing-loop variables multiply k in the row base; what is left is the first column
                 if col0.is_zero() and T == K:
                     r.ok(inst + ': columns 0 .. k-1', func=mf.name, loc=ld.loc)
@@ -178,38 +204,50 @@ def run(ctx):
                                'un-normalised values in the generator')
         if nw < 2:
             r.undecided(f'{fname[1:]}: row walks', msg=f'only {nw} row walks found')
-    for hname, cnt in (('@swap_matrix_rows', 2), ('@col_mult', 3), ('@row_mult', 4), ('@col_mult_and_add', 4), ('@row_mult_and_add', 5)):
+    # helper walks, stated as the set of cells written: {start + stride * t : 0 <= t < count} (bytes from the matrix argument),
+    # whichever way the loop is written (index, running offset, walking pointer, count-down, tested at its end)
+    A = lambda n_: Poly.atom(f'arg{n_}')
+    HELPERS = {'@swap_matrix_rows': [(0, Poly(), Poly.const(4), A(2)), (1, Poly(), Poly.const(4), A(2))],
+               '@col_mult': [(0, A(2) * 4, A(4) * 4, A(3))],
+               '@row_mult': [(0, A(2) * A(4) * 4, Poly.const(4), A(4))],
+               '@col_mult_and_add': [(0, A(3) * 4, A(5) * 4, A(4))],
+               '@row_mult_and_add': [(0, A(3) * A(5) * 4, Poly.const(4), A(5))]}
+    for hname, wants in HELPERS.items():
         hf = rsm.functions.get(hname)
         if hf is None:
             continue
         pch = PolyCtx(P, hf)
         LSh = loops_of(P, hf, pch)
-        inst = f'{hname[1:]}: the loop runs exactly argument {cnt} times from 0'
-        okh = False
-        seen = []
-        for L in LSh:
-            for g_ in [g_ for g_ in L.guards() if g_.block is L.header]:
-                T = L.trip(g_)
-                seen.append(str(T))
-                init, step = L.ivs()[g_.iv]
-                i0 = init[1] if isinstance(init, tuple) else init          # pointer walks: offset from the row / column start
-                if T is not None and T == Poly.atom(f'arg{cnt}') and i0 is not None and i0.is_zero():
-                    okh = True
-                elif T is not None and T == Poly.atom(f'arg{cnt}') and i0 is not None and i0 == Poly.atom(f'arg{cnt}') and step == Poly.const(-1):
-                    # count-down form: the counter runs arg .. 1; the walk itself is done by pointers, which must start at the
-                    # beginning of what they were given (offset 0 from their argument)
-                    ptr_inits = []
-                    for ph in L.phis:
-                        if ph.ty.endswith('*'):
-                            rec = L.ivs().get(ph.res)
-                            pi0 = rec[0] if rec is not None else None
-                            ptr_inits.append(pi0[1] if isinstance(pi0, tuple) else pi0)
-                    if ptr_inits and all(x is not None and (x.is_zero() or not any(a_.startswith('%') for a_ in x.atoms())) for x in ptr_inits):
-                        okh = True
-        if okh:
-            r.ok(inst, func=hf.name, loc=hf.mod.src)
-        else:
-            r.fail(inst, func=hf.name, sig=f'helper loop trips {seen}', loc=hf.mod.src, msg=f'{hname[1:]} iterates {seen} times, expected its count argument (whole row / column)')
+        for root_arg, w_start, w_stride, w_count in wants:
+            inst = f'{hname[1:]}: writes the cells {w_start} + {w_stride} * [0, {w_count}) of argument {root_arg}'
+            got = []
+            for st_ in [i for i in hf.insts() if i.op == 'store' and i.ty == 'i32']:
+                from ..loops import innermost as _inn4
+                L = _inn4(LSh, st_.bb)
+                if L is None:
+                    continue
+                pt = L.ptr_at_iteration(*pch.ptr(st_.ops[1]))
+                if pt is None or pt[0] != f'arg{root_arg}':
+                    continue
+                ab = affine_in_t(pt[1])
+                N_, rot_ = L.runs()
+                if N_ is not None and rot_ and not L.entry_positive(N_):
+                    N_ = None
+                if ab is None or N_ is None:
+                    got.append(('?', str(pt[1]), str(N_)))
+                    continue
+                a_, b_ = ab
+                if b_.values() and all(v < 0 for v in b_.values()):           # walking down: same cells, named from the other end
+                    a_, b_ = a_ + b_ * (N_ - Poly.const(1)), -b_
+                got.append((a_, b_, N_))
+            if any(g_[0] != '?' and g_[0] == w_start and g_[1] == w_stride and g_[2] == w_count for g_ in got):
+                r.ok(inst, func=hf.name, loc=hf.mod.src)
+            elif got and all(g_[0] == '?' for g_ in got) or not got:
+                r.undecided(inst, loc=hf.mod.src, msg=f'stores not recognised as an affine walk: {got[:2]}')
+            else:
+                shown = [f'{g_[0]} + {g_[1]} * [0, {g_[2]})' for g_ in got if g_[0] != '?']
+                r.fail(inst, func=hf.name, sig=f'helper walk {shown[:1]}', loc=hf.mod.src,
+                       msg=f'{hname[1:]} writes the cells {shown} of its matrix argument, expected {w_start} + {w_stride} * [0, {w_count}) (the whole row / column)')
     r.require_min(6)
 
     # ---------------- R04g field arithmetic is total on the field
